@@ -92,12 +92,32 @@ def build_impl(n, ld):
     # integer parameters arrive as numpy scalars in about one program out of six (np.prod(..), len // np.int64(..) in user code)
     import zlib
     I = (lambda x: np.int64(x) if isinstance(x, int) and not isinstance(x, bool) else x) if zlib.crc32(n.key().encode()) % 6 == 0 else (lambda x: x)
+    # about one program in three leaves out every argument that equals its documented default (drop_last=False, lazy=True,
+    # reverse=False, backend='t', catch_filter_exception=None, shuffle(reshuffle=False), tile(shuffle=False), cache(lazy=True), catch()):
+    # a changed default in the library then shows
+    DEF = zlib.crc32((n.key() + 'defaults').encode()) % 3 == 0
     if op == 'map': return d.map(F.PyF(a[0]))
-    if op == 'parmap': return d.map(F.PyF(a[0]), num_workers=I(a[1]), buffer_size=I(a[2]), backend=a[3])
+    if op == 'parmap':
+        if DEF and a[3] == 't':
+            return d.map(F.PyF(a[0]), num_workers=I(a[1]), buffer_size=I(a[2]))
+        return d.map(F.PyF(a[0]), num_workers=I(a[1]), buffer_size=I(a[2]), backend=a[3])
     if op == 'batchmap': return d.batch_map(F.PyF(a[0]))
-    if op == 'filter': return d.filter(F.PyQ(a[0], a[2] if len(a) > 2 else 0), lazy=a[1])
-    if op == 'catch': return d.catch(E_to_py(a[0]), warn=zlib.crc32(n.key().encode()) % 5 == 0)
-    if op == 'prefetch': return d.prefetch(I(a[0]), I(a[1]), backend=a[3], catch_filter_exception=E_to_py(a[2]))
+    if op == 'filter':
+        if DEF and a[1] is True:
+            return d.filter(F.PyQ(a[0], a[2] if len(a) > 2 else 0))
+        return d.filter(F.PyQ(a[0], a[2] if len(a) > 2 else 0), lazy=a[1])
+    if op == 'catch':
+        if DEF and tuple(a[0]) == ('EFilter',):
+            return d.catch()
+        if DEF:
+            return d.catch(E_to_py(a[0]))
+        return d.catch(E_to_py(a[0]), warn=zlib.crc32(n.key().encode()) % 5 == 0)
+    if op == 'prefetch':
+        if DEF and a[3] == 't' and a[2] is None:
+            return d.prefetch(I(a[0]), I(a[1]))
+        if DEF and a[3] == 't':
+            return d.prefetch(I(a[0]), I(a[1]), catch_filter_exception=E_to_py(a[2]))
+        return d.prefetch(I(a[0]), I(a[1]), backend=a[3], catch_filter_exception=E_to_py(a[2]))
     if op == 'get':
         s = a[0]
         if s[0] == 'slice': return d[slice(s[1], s[2], s[3])]
@@ -118,13 +138,13 @@ def build_impl(n, ld):
             return d[list(s[1])] if s[2] == 'list' else d[tuple(s[1])]
     if op == 'shuffle':
         rng = RecRng(a[0])
-        r = d.shuffle(False, rng=rng)
+        r = d.shuffle(rng=rng) if DEF else d.shuffle(False, rng=rng)
         n.note['perm'] = rng.perms[-1]
         return r
     if op in ('concat', 'intersperse', 'zip', 'keyzip'):
         # the four spellings of a combining call: function / method, separate arguments / one list
         name = {'concat': 'concatenate', 'intersperse': 'intersperse', 'zip': 'zip', 'keyzip': 'key_zip'}[op]
-        form = zlib.crc32((n.key() + 'form').encode()) % 4
+        form = zlib.crc32((n.key() + 'form').encode()) % 4 if K else 0
         if form == 0: return getattr(ld, name)(*K)
         if form == 1: return getattr(ld, name)(list(K) if zlib.crc32(n.key().encode()) % 2 else tuple(K))
         if form == 2: return getattr(K[0], name)(*K[1:])
@@ -132,12 +152,20 @@ def build_impl(n, ld):
             return getattr(K[0], name)(*K[1:])          # the zip methods take separate arguments only
         return getattr(K[0], name)(list(K[1:])) if len(K) > 1 else getattr(K[0], name)()
     if op == 'items': return d.items()
-    if op == 'batch': return d.batch(I(a[0]), drop_last=a[1])
+    if op == 'batch':
+        if DEF and a[1] is False:
+            return d.batch(I(a[0]))
+        return d.batch(I(a[0]), drop_last=a[1])
     if op == 'unbatch': return d.unbatch()
     if op == 'cycle': return d.cycle()
-    if op == 'cache': return d.cache(lazy=a[0])
+    if op == 'cache':
+        if DEF and a[0] is True:
+            return d.cache()
+        return d.cache(lazy=a[0])
     if op == 'sort':
         kf = F.PyF(a[0]) if a[0] is not None else None
+        if DEF and a[1] is False:
+            return d.sort(kf) if kf is not None else d.sort()
         return d.sort(kf, reverse=a[1])
     if op == 'shard': return d.shard(I(a[0]), I(a[1]))
     if op == 'tile': return d.tile(I(a[0]))
@@ -593,6 +621,8 @@ class Gen:
         if op == 'tile': return Node('tile', (r.choice([1, 2, 3]),), [node])
         if op == 'shuffle': return Node('shuffle', (r.randint(0, 10 ** 6),), [node])
         if op in ('concat', 'zip', 'intersperse', 'keyzip', 'keyzip?'):
+            if r.random() < 0.07:
+                return Node(op.rstrip('?'), (), [node] if r.random() < 0.8 else [])     # a single dataset / none at all
             others = []
             for _ in range(r.choice([1, 1, 2])):
                 if op in ('keyzip', 'keyzip?') and c['keys']:
